@@ -1,3 +1,4 @@
+mod alias;
 mod rng;
 mod tree;
 mod tw;
@@ -11,6 +12,8 @@ fn main() {
     let code = match cmd {
         "tree-replay" => tree::replay(rest),
         "tree-drive" => tree::drive(rest),
+        "alias-replay" => alias::replay(rest),
+        "alias-drive" => alias::drive(rest),
         "tree-drive-floats" => tree::drive_floats(rest),
         _ => { eprintln!("unknown subcommand {:?}", cmd); 2 }
     };
